@@ -66,9 +66,17 @@ pub(super) fn write_ht(
         sent += 1;
     }
 
+    let mut first_err = None;
     while sent > 0 {
-        io_handle.recv().unwrap();
+        let complete_io = io_handle.recv().unwrap();
+        if let Err(e) = complete_io.result {
+            first_err.get_or_insert(e);
+        }
         sent -= 1;
+    }
+    if let Some(e) = first_err {
+        // a hash-table page did not reach the file: the WAL must stay in place for recovery.
+        return Err(e);
     }
 
     #[cfg(nomt_verif)]
